@@ -37,7 +37,7 @@ def lifecycle(rng, fail_at=None, fail_op=None, kind=None):
     P.append(pol(SSRC_SPECIFIC, ssrc ^ 1).line(4))
     P.append(pol(SSRC_SPECIFIC, ssrc, valid=False).line(5))
     P.append(pol(SSRC_ANY_OUT, 0, valid=False).line(6))
-    P.append(pol(SSRC_SPECIFIC, ssrc).line(7))
+    P.append(pol(SSRC_SPECIFIC, ssrc).line(7, **({} if mki else {"nkeys": 2})))     # legacy `key` pointer AND a key count: one key is what exists
     P.append(pol(SSRC_ANY_OUT, 0).line(8))
     P.append(pol(SSRC_SPECIFIC, 5).line(9))
     def pk(s, q): return rtp_packet(s, q, payload=b"x" * 20)
